@@ -92,7 +92,7 @@ def run(rep, tier):
             field_cache[b.cfg.name] = dict(eng.FIELD)
         records = taint.Records(m)
         FIELD = field_cache[b.cfg.name]
-        summ = effects.wipe_summaries(m, count_plain_stores=lambda f: not is_cpp_dtor(f.name))
+        summ = effects.wipe_summaries(m, count_plain_stores=lambda f: not is_cpp_dtor(f.name), external=_asm_wipes(b))
         rep.functions += len(summ)
         nobl = 0
         req_by_type = {}
@@ -162,7 +162,7 @@ def run(rep, tier):
                                       "required_bytes": len(required), "wiped_bytes": len(wiped)})
         if nobl < 25:
             rep.broken.append("%s: only %d obligations found in %s" % (rid, nobl, cname))
-        rule_locals(rep, m, cname, req_by_type)
+        rule_locals(rep, m, cname, req_by_type, b)
     rep.floor(rid, 25 * len(jobs))
 
 
@@ -172,14 +172,29 @@ def _wiped_at_o3(b, fname, required, cache):
     if b.cfg.name not in cache:
         lr = repo.lower(b, group="lib", level="O3", scev=True, tolerate=tuple(u.rel for u in b.group("lib", ("c++",))))
         m3 = ir.Module.load(lr.json)
-        cache[b.cfg.name] = (m3, effects.wipe_summaries(m3, count_plain_stores=lambda f: not is_cpp_dtor(f.name)))
+        cache[b.cfg.name] = (m3, effects.wipe_summaries(m3, count_plain_stores=lambda f: not is_cpp_dtor(f.name),
+                                                        external=_asm_wipes(b)))
     m3, summ3 = cache[b.cfg.name]
     if fname not in summ3 or fname not in m3.funcs or m3.funcs[fname].decl:
         return False
     return required <= set(summ3[fname].must.get(0, frozenset()))
 
 
-def rule_locals(rep, m, cname, req_by_type):
+_ASM_WIPES = {}
+
+
+def _asm_wipes(b):
+    """what the x86-64 assembly functions of the configuration wipe through their pointer arguments (stores made by
+    assembly cannot be elided and are not visible in the IR); None for the C back ends"""
+    if b is None or b.cfg.backend != "asm":
+        return None
+    if b.cfg.name not in _ASM_WIPES:
+        from . import asm_anf
+        _ASM_WIPES[b.cfg.name] = asm_anf.wipe_summaries(b)
+    return _ASM_WIPES[b.cfg.name]
+
+
+def rule_locals(rep, m, cname, req_by_type, b=None):
     """D3: a state object that lives on the stack of a library function (the
     one-shot functions build one, use it and let it die) is wiped before every
     return on which it was written, and - because the object is dead afterwards
@@ -193,7 +208,7 @@ def rule_locals(rep, m, cname, req_by_type):
 
     def pred(f, i):
         return (i.d.get("aty") or "").lstrip("%") in {t.lstrip("%") for t in types}
-    strict = effects.wipe_summaries(m, count_plain_stores=lambda f: False, allocas=pred)
+    strict = effects.wipe_summaries(m, count_plain_stores=lambda f: False, allocas=pred, external=_asm_wipes(b))
     for f in m.defined():
         for i in f.insts():
             if i.op != "alloca" or not pred(f, i):
@@ -305,7 +320,7 @@ def rule_sink(rep, build):
     for b in repo.configure_many(repo.backend_configs()):
         lr2 = repo.lower(b, group="lib", level="O0", langs=("c",))
         m2 = ir.Module.load(lr2.json)
-        summ = effects.wipe_summaries(m2)
+        summ = effects.wipe_summaries(m2, external=_asm_wipes(b))
         s = summ.get("ascon_free")
         if s is None:
             raise repo.AnalysisBroken("ascon_free not defined in %s" % b.cfg.name)
